@@ -83,6 +83,11 @@ def import_target(target):
     return obj
 
 
+class HarnessMismatch(Exception):
+    """the replay harness could not call the real function (it was renamed, removed, or its signature changed): the contract does not fit the current
+    source -- never a violation"""
+
+
 def native_outcome(contract, pyargs):
     fn = contract.replay.call if contract.replay and contract.replay.call else None
     try:
@@ -90,6 +95,11 @@ def native_outcome(contract, pyargs):
         else: r = import_target(contract.target)(**pyargs)
         return ('return', r)
     except Exception as ex:       # noqa
+        import traceback as _tb
+        frames = _tb.extract_tb(ex.__traceback__)
+        in_library = any(('/stix2/' in f.filename.replace('\\', '/') or '/site-packages/' in f.filename) and '/verif/' not in f.filename for f in frames)
+        if not in_library and isinstance(ex, (AttributeError, TypeError, ImportError, NameError, KeyError)):
+            raise HarnessMismatch(f'{type(ex).__name__}: {ex}')
         return ('raise', ex)
 
 
@@ -242,7 +252,9 @@ class Check:
             for py, ob in candidates():
                 if n >= max_candidates or time.time() - t0 > budget_s: break
                 n += 1
-                outcome = native_outcome(contract, py)
+                try: outcome = native_outcome(contract, py)
+                except HarnessMismatch as hm:
+                    self.undecided_notes.append(f'{contract.name}: native family not applicable to the current source ({hm})'); break
                 try:
                     if rp.judge: pre, bad = True, rp.judge(py, outcome, ob)
                     else: pre, bad = native_check(contract, py, outcome)
